@@ -1,6 +1,12 @@
 # Registered checks: property -> engines and budgets per tier.
 # batches x runs = simulated cases of the plain binary; race_* = the same engine in the -race binary.
 CHECKS = {
+    "C04": dict(engines=["c04hist", "c04map", "c04lin"], level="exploration", race_engines=["c04lin"],
+                quick=dict(batches=16, runs=200, race_batches=4, race_runs=40, timeout=900),
+                thorough=dict(batches=64, runs=4000, race_batches=16, race_runs=400, timeout=3000)),
+    "C03": dict(engines=["c03"], level="exploration",
+                quick=dict(batches=16, runs=400, timeout=900),
+                thorough=dict(batches=64, runs=8000, timeout=3000)),
     "C13": dict(engines=["c13"], level="exploration",
                 quick=dict(batches=16, runs=250, timeout=900),
                 thorough=dict(batches=64, runs=1500, timeout=3000)),
@@ -41,7 +47,26 @@ for _p in ["C02", "C03", "C04", "C08", "C09", "C10", "C13", "C15", "C17", "C18"]
 PIPE_NOTE = ("The schedule / fault-position dimension is explored by the seeded scheduler; the input dimension (tree shapes, sizes up to the stated bounds) is "
              "only sampled by the workload generator. Oracle = independent Newick reader + brute-force split algebra (no gotree code). Interleavings at hook "
              "granularity; dependencies un-instrumented; go1.26.8 runtime with go1.21 GODEBUG defaults.")
+HIST_NOTE = ("Quantifier 'histories': the system under simulation is the long-lived mutable tree (or index) object; every choice of the history comes from the one seed and "
+             "shrinks. Histories of bounded length over trees of bounded size are sampled, not enumerated. A step that fails (error, panic, os.Exit) poisons the state and is "
+             "only counted: the statement speaks of operations that report success.")
 TEXTS = {
+    "C03": dict(
+        level_text="Seeded operation histories (1..30 steps over 33 public editing operations with state-relative arguments, PRNG seam seeded per step) on one live tree; after "
+                   "every successful step an own structural checker over the public traversal API (connected, acyclic, symmetric adjacency with the same branch object, "
+                   "orientation away from the root, |branches| = |nodes|-1, all = internal + external, tips = degree-1 nodes) and the comparison of the written Newick (read by "
+                   "an independent reader) with the walked structure. Sampling: evidence, not proof.",
+        design_ref="§4 C03", level_note=HIST_NOTE,
+        technique="deterministic simulation: seeded, shrinkable operation histories on a live object with invariants evaluated after every step"),
+    "C04": dict(
+        level_text="Three seeded simulations: (1) the C03 histories with ReinitIndexes after every successful step, each branch's tip ranking, bitset, counts and depth compared "
+                   "with the split cut from a walk of the live tree; (2) pools of branches of differently rooted / rotated / SPR-related trees: SameBipartition and HashEquals "
+                   "<=> same split, equal split => equal hash; a split index of drawn capacity and load factor driven through insertion / overwrite / lookup / range histories "
+                   "against a plain map, keys presented through other branch objects; quartet Compare / HashEquals / HashCode over all 24 presentations; (3) simulated clients "
+                   "of the RWMutex-protected hash map under the deterministic scheduler with every statement of package hashmap a pre-emption point, histories checked for "
+                   "linearizability with porcupine and by the race detector. Sampling: evidence, not proof.",
+        design_ref="§4 C04", level_note=HIST_NOTE + " Capacity 0 is excluded (not a capacity). porcupine time-outs are inconclusive and never reported.",
+        technique="deterministic simulation: seeded operation histories against a reference map + scheduled concurrent clients checked for linearizability (porcupine)"),
     "C13": dict(
         level_text="Seeded simulation of conversion chains (1..3 hops over Nexus, Nexus+translate, Tree.Nexus, PhyloXML) written by gotree's channel-fed writers and read back "
                    "by the real multi-tree reader goroutine (under the deterministic scheduler) and by the single-tree reader from simulated chunked streams with varying "
